@@ -311,6 +311,54 @@ func runC08(c *Ctx) {
 			}
 		}
 	}
+	// ---------- the account itself arrives as a VERSION-1 token and is migrated: every key its signing_keys list names,
+	// wherever in the list it stands (before or after the account's own key, which some tools list as well), signs for
+	// the migrated account exactly as it does for the version-1 account - also after the migrated account is re-encoded
+	for li, list := range [][]string{{K1}, {A, K1}, {K1, A, K2}, {A, K2, K1}, {K2, A}, {K1, K2}, {A}, {}, {K1, K1, A, A, K2}} {
+		va := v1.NewAccountClaims(A)
+		va.SigningKeys = append(v1.StringList{}, list...)
+		vtok, err := va.Encode(okp)
+		if err != nil {
+			panic(err)
+		}
+		mig, err := jwt.DecodeAccountClaims(vtok)
+		if err != nil {
+			c.violation("C04: a version-1 account token does not migrate", map[string]interface{}{"token": vtok, "error": err.Error()})
+			continue
+		}
+		again := mig
+		if t2, err := mig.Encode(okp); err == nil {
+			if a2, err := jwt.DecodeAccountClaims(t2); err == nil {
+				again = a2
+			}
+		}
+		for iss, kp := range map[string]nkeys.KeyPair{A: akp, K1: k1kp, K2: k2kp, AX: axkp} {
+			for _, ia := range []string{"", A, B} {
+				x := jwt.NewUserClaims(U)
+				x.IssuerAccount = ia
+				tok, err := x.Encode(kp)
+				if err != nil {
+					panic(err)
+				}
+				cl, err := jwt.Decode(tok)
+				if err != nil {
+					panic(err)
+				}
+				vx := v1.NewUserClaims(U)
+				vx.IssuerAccount, vx.Issuer = ia, iss
+				want := iss == A || (ia == A && contains(list, iss))
+				got, got2, gotV1 := mig.DidSign(cl), again.DidSign(cl), va.DidSign(vx)
+				inp := map[string]interface{}{"entity": "account migrated from a version-1 token", "v1_signing_keys": nameList(list, A, K1, K2), "list": li,
+					"issuer": nameOf(iss, A, K1, K2, AX, B), "issuer_account": nameOf(ia, A, B), "impl": got, "impl_after_reencoding": got2, "v1_library": gotV1, "spec": want}
+				c.sum.Evaluations++
+				c.sum.ImplChecks++
+				if got != want || got2 != want || gotV1 != want {
+					c.violation("account DidSign of an account migrated from a version-1 token differs from the trust rule", inp)
+				}
+				c.count("account_migrated_from_v1")
+			}
+		}
+	}
 	// ---------- the account arrives as a token written by another implementation: member names of a scope object in
 	// another letter case (encoding/json reads them all the same; the "kind" member, which the library itself looks
 	// up, stays as it is) - the scoped key signs for the account like any other
@@ -418,4 +466,12 @@ func nameOf(v string, names ...string) string {
 		return "empty"
 	}
 	return "other"
+}
+
+func nameList(l []string, names ...string) []string {
+	var out []string
+	for _, x := range l {
+		out = append(out, nameOf(x, names...))
+	}
+	return out
 }
